@@ -144,6 +144,7 @@ func ZZC15PackageOnly24() { zzC15PackageOnly(24) }
 func ZZC15Implements24()  { zzC15Implements(24) }
 func ZZC15Simple28()      { zzC15Simple(28) }
 func ZZC15Constructor30() { zzC15Constructor(30) }
+func ZZC15Constructor27() { zzC15Constructor(27) }
 func ZZC15PackageOnly30() { zzC15PackageOnly(30) }
 func ZZC15Implements30()  { zzC15Implements(30) }
 
